@@ -120,6 +120,20 @@ CLAIMED["C01"] = dict(
          "built). Inputs are sampled; the settings lattice is exhaustive.",
     technique="TLA+ settings/path lattice + exact rational path formulas checked by TLC; every cell replayed on real models against the dense conditional")
 
+CLAIMED["C07"] = dict(
+    category="exploration",
+    text="Validity.tla is a data-growth machine over exact rationals: observations (duplicates allowed) are added one by one and TLC checks in every "
+         "reachable state that prior, posterior and prior-minus-posterior covariance are symmetric PSD (principal minors) and across every step that no "
+         "posterior variance increases - the design-level statement that the formulas have these properties. The same growth histories are walked on a real "
+         "exact GP for 17 kernels on their documented domains and four geometry classes (spread, exact duplicates, rows 1e-9 apart, clustered), and Gram "
+         "matrices are checked over kernel x geometry x lengthscale scale 1e-3..1e3: symmetry, eigenvalues >= -1e-8 lambda_max, marginal covariances, monotone "
+         "variances, variance/stddev floors under default and custom min_variance, likelihood noise >= its constraint's lower bound for any raw value, and "
+         "variational q(u), p(u), q(f) covariances.",
+    design_ref="DESIGN.md section 6 (C07)",
+    note="Exploration level: exhaustive in kernel x geometry class x growth history, sampled in the real-valued inputs; 'up to rounding' is fixed as lambda_min >= "
+         "-1e-8 lambda_max in float64 (differences: relative to the operands).",
+    technique="TLA+ growth machine with exact rational PSD checks in TLC; growth histories and a kernel x geometry lattice replayed with float64 eigenvalue checks")
+
 PENDING = "check not built yet (build in progress; see DESIGN.md section 11)"
 NOT_APPLICABLE = {}
 
